@@ -517,21 +517,91 @@ pub fn write_item(it: &Item, out: &mut Vec<u8>, enc: &mut dyn EncChoice) {
                 out.push(*v);
             }
         }
-        Kind::Float(w, bits) => match w {
-            2 => {
-                out.push(0xf9);
-                out.extend_from_slice(&(*bits as u16).to_be_bytes());
+        Kind::Float(w, bits) => {
+            // the encoder's choice: the width the item has, or a wider one holding the same value
+            let (w, bits) = match (*w, enc.width(*w)) {
+                (2, 4) => (4u8, (float_value(2, *bits) as f32).to_bits() as u64),
+                (2, 8) => (8, float_value(2, *bits).to_bits()),
+                (4, 8) => (8, float_value(4, *bits).to_bits()),
+                _ => (*w, *bits),
+            };
+            match w {
+                2 => {
+                    out.push(0xf9);
+                    out.extend_from_slice(&(bits as u16).to_be_bytes());
+                }
+                4 => {
+                    out.push(0xfa);
+                    out.extend_from_slice(&(bits as u32).to_be_bytes());
+                }
+                _ => {
+                    out.push(0xfb);
+                    out.extend_from_slice(&bits.to_be_bytes());
+                }
             }
-            4 => {
-                out.push(0xfa);
-                out.extend_from_slice(&(*bits as u32).to_be_bytes());
-            }
-            _ => {
-                out.push(0xfb);
-                out.extend_from_slice(&bits.to_be_bytes());
-            }
-        },
+        }
     }
+}
+
+/// Half-precision bits to the double holding the same value (NaN payloads keep their position).
+pub fn f16_to_f64(h: u16) -> f64 {
+    let s = ((h >> 15) as u64) << 63;
+    let e = ((h >> 10) & 0x1f) as u64;
+    let m = (h & 0x3ff) as u64;
+    match e {
+        0 => {
+            let v = (m as f64) * 2f64.powi(-24);
+            f64::from_bits(v.to_bits() | s)
+        }
+        31 => f64::from_bits(s | (0x7ffu64 << 52) | (m << 42)),
+        _ => f64::from_bits(s | ((e + 1023 - 15) << 52) | (m << 42)),
+    }
+}
+
+/// Value of a float item of the given width as a double.
+pub fn float_value(w: u8, bits: u64) -> f64 {
+    match w {
+        2 => f16_to_f64(bits as u16),
+        4 => f32::from_bits(bits as u32) as f64,
+        _ => f64::from_bits(bits),
+    }
+}
+
+/// The narrowest float item (width, bits) that holds exactly this double, bit for bit when
+/// widened again: what a shortest-form encoder writes.
+pub fn shortest_float(bits: u64) -> (u8, u64) {
+    let sign = (bits >> 63) << 15;
+    let exp = ((bits >> 52) & 0x7ff) as i64;
+    let man = bits & ((1u64 << 52) - 1);
+    let h: u64 = if exp == 0x7ff {
+        if man == 0 {
+            sign | 0x7c00
+        } else {
+            sign | 0x7e00 | (man >> 42)
+        }
+    } else if exp == 0 {
+        sign
+    } else {
+        let e = exp - 1023;
+        if e > 15 {
+            sign | 0x7c00
+        } else if e >= -14 {
+            sign | (((e + 15) as u64) << 10) | (man >> 42)
+        } else if e >= -24 {
+            let m = (1u64 << 52) | man;
+            sign | (m >> (42 + (-14 - e)) as u32)
+        } else {
+            sign
+        }
+    };
+    if f16_to_f64(h as u16).to_bits() == bits {
+        return (2, h);
+    }
+    let f = f64::from_bits(bits) as f32;
+    if (f as f64).to_bits() == bits {
+        return (4, f.to_bits() as u64);
+    }
+    (8, bits)
 }
 
 pub fn encode(it: &Item) -> Vec<u8> {
@@ -652,6 +722,91 @@ pub fn bignumify(rng: &mut Rng, it: &mut Item, depth: usize) {
     }
 }
 
+/// A copy of the tree that differs from it in exactly one place (one node emptied, shortened,
+/// lengthened, nudged, dropped or repeated); byte strings that hold CBOR are sometimes changed on
+/// the inside instead.  Used to obtain values that are *nearly* equal to a given one.
+pub fn near_copy(rng: &mut Rng, it: &Item, depth: usize) -> Item {
+    let mut out = it.clone();
+    let ps = paths(&out);
+    let p = rng.pick(&ps).clone();
+    if let Some(x) = get_mut(&mut out, &p) {
+        mutate_node(rng, x, depth);
+    }
+    out
+}
+
+fn mutate_node(rng: &mut Rng, x: &mut Item, depth: usize) {
+    match &mut x.kind {
+        Kind::Bytes(b) => {
+            if depth < 3 && !b.is_empty() && rng.bool() {
+                if let Ok(inner) = read_exact(b) {
+                    *b = encode(&near_copy(rng, &inner, depth + 1));
+                    return;
+                }
+            }
+            match rng.below(5) {
+                0 => b.clear(),
+                1 => {
+                    if let Some(l) = b.last_mut() {
+                        *l ^= 1
+                    } else {
+                        b.push(0)
+                    }
+                }
+                2 => {
+                    b.pop();
+                }
+                3 => {
+                    if let Some(f) = b.first_mut() {
+                        *f ^= 0x80
+                    } else {
+                        b.push(0xff)
+                    }
+                }
+                _ => b.push(0),
+            }
+        }
+        Kind::Text(t) => match rng.below(3) {
+            0 => t.clear(),
+            1 => t.push(b'a'),
+            _ => {
+                t.pop();
+                while std::str::from_utf8(t).is_err() {
+                    t.pop();
+                }
+            }
+        },
+        Kind::UInt(v) | Kind::NInt(v) => {
+            *v = match rng.below(3) {
+                0 => v.wrapping_add(1),
+                1 => 0,
+                _ => v.wrapping_sub(1),
+            }
+        }
+        Kind::Array(a) => {
+            if rng.bool() || a.is_empty() {
+                a.pop();
+            } else {
+                let l = a[a.len() - 1].clone();
+                a.push(l);
+            }
+        }
+        Kind::Map(m) => match rng.below(3) {
+            0 => {
+                m.pop();
+            }
+            1 if m.len() >= 2 => {
+                let n = m.len();
+                m.swap(0, n - 1);
+            }
+            _ => m.push((Item::int(-70001), Item::bytes(&[]))),
+        },
+        Kind::Tag(t, _) => *t ^= 1,
+        Kind::Simple(v) => *v = if *v == 20 { 21 } else { 20 },
+        Kind::Float(_, bits) => *bits ^= 1,
+    }
+}
+
 #[cfg(test)]
 mod tests {
     use super::*;
@@ -685,6 +840,30 @@ mod tests {
             );
             let again = read_exact(&out).unwrap();
             assert_eq!(encode(&again), b);
+        }
+    }
+    #[test]
+    fn floats() {
+        assert_eq!(shortest_float(1.5f64.to_bits()), (2, 0x3e00));
+        assert_eq!(shortest_float(0f64.to_bits()), (2, 0));
+        assert_eq!(shortest_float((-0f64).to_bits()), (2, 0x8000));
+        assert_eq!(shortest_float(f64::INFINITY.to_bits()), (2, 0x7c00));
+        assert_eq!(shortest_float(0x7ff8_0000_0000_0000), (2, 0x7e00));
+        assert_eq!(shortest_float(65504f64.to_bits()), (2, 0x7bff));
+        assert_eq!(shortest_float(65505f64.to_bits()).0, 4);
+        assert_eq!(shortest_float(2f64.powi(-24).to_bits()), (2, 1));
+        assert_eq!(shortest_float(2f64.powi(-25).to_bits()).0, 4);
+        assert_eq!(shortest_float(1e300f64.to_bits()).0, 8);
+        assert_eq!(shortest_float(0.1f64.to_bits()).0, 8);
+        assert_eq!(shortest_float((0.1f32 as f64).to_bits()).0, 4);
+        for h in 0..=0xffffu16 {
+            if (h >> 10) & 0x1f == 31 && h & 0x3ff != 0 && h & 0x200 == 0 {
+                // signalling NaNs: a shortest-form encoder quiets them on the way down, so they
+                // stay wide
+                continue;
+            }
+            let v = f16_to_f64(h);
+            assert_eq!(shortest_float(v.to_bits()), (2, h as u64), "{:04x}", h);
         }
     }
     #[test]
